@@ -94,3 +94,11 @@
 (declare-fun unbigstr (Int) Int)
 (assert (forall ((x Int)) (! (= (unbigstr (bigstr x false)) x) :pattern ((bigstr x false)))))
 (assert (forall ((x Int) (b Bool)) (! (> (bigstr x b) 0) :pattern ((bigstr x b)))))
+(declare-fun isedw (Iface) Bool)          ; dcrd edwards25519
+(define-fun secpN () Int 115792089237316195423570985008687907852837564279074904382605163141518161494337)
+(define-fun edN () Int 7237005577332262213973186563042994240857116359379907606001950938285454250989)
+(assert (forall ((c Iface)) (! (=> (issecp c) (and (= (curveN c) secpN) (= (curveBits c) 256) (not (isedw c)))) :pattern ((issecp c)))))
+(assert (forall ((c Iface)) (! (=> (isedw c) (and (= (curveN c) edN) (= (curveBits c) 256))) :pattern ((isedw c)))))
+(assert (forall ((c Iface)) (! (oncurve c (curveGx c) (curveGy c)) :pattern ((curveGx c)))))
+(assert (forall ((x Int) (n Int)) (! (=> (and (= x 2) (>= n 0)) (= (ipow x n) (pow2 n))) :pattern ((ipow x n)))))
+(assert (forall ((n Int)) (! (=> (>= n 1) (>= (pow2 n) 2)) :pattern ((pow2 n)))))
